@@ -562,8 +562,15 @@ func decoratorChecks(c *Ctx, m string, feeF *ssa.Function) {
 			r.Require(notMod, "A2.decorator-checks", key+"|bypass", pos(c, nx), "the decorator passes a transaction on unchecked only when it contains no "+m+" fee-bearing message", "an unchecked pass-through is reachable for module transactions")
 			continue
 		}
-		r.Require(w.Guarded(dec, nx, nilOf("funds"), 3), "A2.decorator-checks", key+"|funds", pos(c, nx), "a module transaction proceeds only after the affordability check returned nil", "next() reachable without it")
-		r.Require(w.Guarded(dec, nx, nilOf("slots"), 3), "A2.decorator-checks", key+"|slots", pos(c, nx), "a module transaction proceeds only after the max-slot check returned nil", "next() reachable without it")
+		// judged on the flat view: which checks run may be decided by a helper (a table of checks per processing stage),
+		// whose verdict the walk carries along as facts
+		flatG := func(m ir.Matcher) bool {
+			root := w.FlatRoot(dec)
+			at := nx
+			return w.FlatReaches(root, nil, &ir.FlatCut{Matcher: m, Depth: 3}, func(p ir.FPos) bool { return p.Ctx == root && p.In == at }) == nil
+		}
+		r.Require(w.Guarded(dec, nx, nilOf("funds"), 3) || flatG(nilOf("funds")), "A2.decorator-checks", key+"|funds", pos(c, nx), "a module transaction proceeds only after the affordability check returned nil", "next() reachable without it")
+		r.Require(w.Guarded(dec, nx, nilOf("slots"), 3) || flatG(nilOf("slots")), "A2.decorator-checks", key+"|slots", pos(c, nx), "a module transaction proceeds only after the max-slot check returned nil", "next() reachable without it")
 		feeOrSkip := func(p ir.Pred) bool {
 			if nilOf("fee")(p) {
 				return true
@@ -576,7 +583,7 @@ func decoratorChecks(c *Ctx, m string, feeF *ssa.Function) {
 			}
 			return false
 		}
-		r.Require(w.Guarded(dec, nx, feeOrSkip, 3), "A2.decorator-checks", key+"|fee", pos(c, nx), "during CheckTx (not simulating) a module transaction proceeds only after the exact-fee check returned nil", "next() reachable in CheckTx without it")
+		r.Require(w.Guarded(dec, nx, feeOrSkip, 3) || flatG(feeOrSkip), "A2.decorator-checks", key+"|fee", pos(c, nx), "during CheckTx (not simulating) a module transaction proceeds only after the exact-fee check returned nil", "next() reachable in CheckTx without it")
 		// and the skip really is limited to !IsCheckTx or simulate: with those edges only, the fee check must be bypassed
 		onlySkip := func(p ir.Pred) bool {
 			return !p.Pol && calleeIs(p.E, "types.Context).IsCheckTx") || p.Pol && p.E.Op == "param" && p.E.Name == dec.Params[len(dec.Params)-2].Name()
